@@ -1,4 +1,4 @@
-import PdtVerif.Lemmas.SpecAugment
+import PdtVerif.Lemmas.SpecAugmentThinPlate
 /-!
 # C08 — SpecAugment draws stay within bounds; masking touches only masked cells
 
@@ -331,6 +331,191 @@ example : pwl (warpKnots (1/8388608) 0 100 100 50 (99/2)) (norm 100 99) = norm 1
   have e2 : (((100 : Nat) : Rat) - 1) = 99 := by norm_num
   rw [e, e2] at this
   exact this
+
+/-! ## the float-stable evaluation the repaired code uses -/
+
+/-- **C08_linear_warp_stable_eq**: the literal arithmetic of the repaired order-1 branch of
+`warp_1d_grid` (`warpGridStable`/`stableAt`: every quantity an offset from the nearer pinned end,
+both offsets of the moved knot clamped separately, the two-sided branch test
+`t_lo ≤ dst_lo ∧ t_up ≥ dst_up`, the identity past the upper pinned end) equals, in exact
+arithmetic, the closed-form piecewise-linear map of the model (`warpGrid`), for every size,
+length, source point and flow, whenever `2·eps·T ≤ 1`.  So `C08_linear_warp_monotone/_valid/
+_ends_repaired/_spline` are statements about what the code computes, up to float rounding. -/
+theorem C08_linear_warp_stable_eq {eps : Rat} {T len : Nat} (hT : 1 ≤ T) (hl : 1 ≤ len) (he : 0 < eps)
+    (hT2 : 2 * eps * (T : Rat) ≤ 1) (src flow : Rat) :
+    warpGridStable eps T len src flow = warpGrid eps T len src flow := by
+  unfold warpGridStable warpGrid warpGridWith
+  apply List.map_congr_left
+  intro j _
+  exact stableAt_eq_pwl hT hl he hT2 src flow j
+
+/-- The hypotheses hold for float32 and any realistic size; a concrete evaluation. -/
+example : warpGridStable (1/8388608) 4 3 1 (1/2) = warpGrid (1/8388608) 4 3 1 (1/2) :=
+  C08_linear_warp_stable_eq (by norm_num) (by norm_num) (by norm_num) (by norm_num) 1 (1/2)
+
+/-! ## the frequency warp: the same grid code with the axes swapped -/
+
+/-- **C08_apply_warp_grids**: whenever a warp is present, `spec_augment_apply_parameters` is
+`grid_sample` on the pair (time grid, frequency grid) followed by the masks; the frequency grid
+is `warp_1d_grid(v_0, v, F, F)` — the code of the time warp with `F` as size *and* length — and
+the axis without a warp gets the identity grid. -/
+theorem C08_apply_warp_grids (epsG : Rat) (x : List (List Rat)) (T F len : Nat) (p : Params)
+    (hw : (p.warpT.isSome || p.warpF.isSome) = true) :
+    applyParams epsG x T F len p
+      = applyMasks (gridSample x T F (timeGridOf epsG T len p) (freqGridOf epsG F p)) p.tmasks p.fmasks :=
+  applyParams_warp epsG x T F len p hw
+
+/-- **C08_freq_warp**: for a drawn / supplied frequency warp `(v0, v)` the frequency grid is
+non-decreasing over all `F` coefficients, every coefficient reads between the pinned ends
+(inside `[0, F-1]` up to `eps`), the first and the last coefficient read within half a
+coefficient (`1/F` in grid units) of themselves, and the grid is what the float-stable code
+evaluates.  All of it for every `F ≥ 1` with `2·eps·F ≤ 1`. -/
+theorem C08_freq_warp {epsG : Rat} {F : Nat} (hF : 1 ≤ F) (he : 0 < epsG) (hF2 : 2 * epsG * (F : Rat) ≤ 1)
+    (p : Params) (v0 v : Rat) (hp : p.warpF = some (v0, v)) :
+    freqGridOf epsG F p = warpGrid epsG F F v0 v ∧
+    freqGridOf epsG F p = warpGridStable epsG F F v0 v ∧
+    Monotone (freqGridOf epsG F p) ∧
+    (∀ k, (h : k < (freqGridOf epsG F p).length) →
+      lowerPin epsG F ≤ (freqGridOf epsG F p)[k] ∧ (freqGridOf epsG F p)[k] ≤ upperPin epsG F F) ∧
+    (let kn := warpKnots epsG (knotMargin epsG F) F F v0 v
+     (norm F 0 - 1 / (F : Rat) ≤ pwl kn (norm F 0) ∧ pwl kn (norm F 0) ≤ norm F 0 + 1 / (F : Rat)) ∧
+     (norm F ((F : Rat) - 1) - 1 / (F : Rat) ≤ pwl kn (norm F ((F : Rat) - 1)) ∧
+       pwl kn (norm F ((F : Rat) - 1)) ≤ norm F ((F : Rat) - 1) + 1 / (F : Rat))) := by
+  obtain ⟨m0, m1⟩ := knotMargin_bounds he hF2
+  have hg : freqGridOf epsG F p = warpGrid epsG F F v0 v := by unfold freqGridOf; rw [hp]
+  refine ⟨hg, ?_, ?_, ?_, C08_linear_warp_ends_repaired hF hF he hF2 v0 v⟩
+  · rw [hg]; exact (C08_linear_warp_stable_eq hF hF he hF2 v0 v).symm
+  · rw [hg]; exact C08_linear_warp_monotone hF hF he m0 m1 v0 v
+  · intro k h
+    have hk : k < F := by
+      have : (freqGridOf epsG F p).length = F := by rw [hg]; simp [warpGrid, warpGridWith]
+      omega
+    have e : (freqGridOf epsG F p)[k] = pwl (warpKnots epsG (knotMargin epsG F) F F v0 v) (norm F (k : Rat)) := by
+      simp [hg, warpGrid, warpGridWith]
+    rw [e]
+    exact C08_linear_warp_valid hF hF he m0 m1 v0 v k hk
+
+/-- **C08_freq_warp_rowwise**: a frequency-only warp never mixes frames — with the identity time
+grid, output cell `(j, k)` is the 1-D linear interpolation of input row `j` at the frequency
+coordinate `fg[k]`.  (`grid_sample`'s coordinate pair is `(freq, time)`; this is the statement
+that the swapped axes end up where they should.) -/
+theorem C08_freq_warp_rowwise (x : List (List Rat)) (T F : Nat) (fg : List Rat) (j k : Nat)
+    (hj : j < (gridSample x T F (idGrid T) fg).length)
+    (hk : k < ((gridSample x T F (idGrid T) fg)[j]).length) (hkf : k < fg.length) :
+    ((gridSample x T F (idGrid T) fg)[j])[k] = rowInterp x T F j fg[k] := by
+  have hjT : j < T := by simpa [gridSample, idGrid] using hj
+  simp only [gridSample, idGrid, List.getElem_map, List.getElem_range]
+  exact bilinear_idrow x hjT _
+
+/-- **C08_time_warp_colwise**: symmetrically, a time-only warp never mixes coefficients. -/
+theorem C08_time_warp_colwise (x : List (List Rat)) (T F : Nat) (tg : List Rat) (j k : Nat)
+    (hj : j < (gridSample x T F tg (idGrid F)).length)
+    (hk : k < ((gridSample x T F tg (idGrid F))[j]).length) (hjt : j < tg.length) :
+    ((gridSample x T F tg (idGrid F))[j])[k] = colInterp x T F k tg[j] := by
+  have hkF : k < F := by simpa [gridSample, idGrid] using hk
+  simp only [gridSample, idGrid, List.getElem_map, List.getElem_range]
+  exact bilinear_idcol x hkF _
+
+example : freqGridOf (1/8388608) 3 ⟨none, some (1, 1/2), [], []⟩ = warpGrid (1/8388608) 3 3 1 (1/2) := rfl
+
+/-! ## orders 2 and 3: what exact arithmetic gives -/
+
+/-- **C08_cubic_warp_exists_unique** (interpolation order 3, `φ(r) = r³`): for the three knots
+`warp_1d_grid` builds (any margin in `[0,1]`, so also the pinned commit's), the linear system
+`polyharmonic_spline(order = 3)` sets up has a solution and only one.  In exact arithmetic the
+order-3 warp is therefore a well-defined (finite, rational) function of the frame position which
+passes through the two pinned ends and the moved knot (rows `at1`–`at3`); what is *not* covered
+is the conditioning of the float32 solve when the knot sits `eps` from an end
+(`Q = 2a²b²(a+b)` with a gap of `eps`). -/
+theorem C08_cubic_warp_exists_unique {eps mu : Rat} {T len : Nat} (hT : 1 ≤ T) (hl : 1 ≤ len)
+    (he : 0 < eps) (hm0 : 0 ≤ mu) (hm1 : mu ≤ 1) (src flow : Rat) :
+    (∃ w1 w2 w3 v1 v0, SplineSystemPhi phi3 (warpKnots eps mu T len src flow) w1 w2 w3 v1 v0) ∧
+    (∀ w1 w2 w3 v1 v0 w1' w2' w3' v1' v0',
+      SplineSystemPhi phi3 (warpKnots eps mu T len src flow) w1 w2 w3 v1 v0 →
+      SplineSystemPhi phi3 (warpKnots eps mu T len src flow) w1' w2' w3' v1' v0' →
+      w1 = w1' ∧ w2 = w2' ∧ w3 = w3' ∧ v1 = v1' ∧ v0 = v0') := by
+  have ho := (warpKnots_facts hT hl (le_of_lt he) hm0 hm1 src flow).ordered he
+  generalize warpKnots eps mu T len src flow = k at *
+  have h12 := ho.h12
+  have h23 := ho.h23
+  have h0 : phi3 0 = 0 := by unfold phi3; ring
+  have ha : 0 < k.c2 - k.c1 := by linarith
+  have hb : 0 < k.c3 - k.c2 := by linarith
+  have hQ := poly3Q_phi3 ha hb
+  have hab : (k.c2 - k.c1) + (k.c3 - k.c2) ≠ 0 := by intro h; linarith
+  constructor
+  · obtain ⟨w1, w2, w3, v1, v0, S⟩ := Poly3Sys.exists k.c1 (k.c2 - k.c1) (k.c3 - k.c2) (phi3 (k.c2 - k.c1))
+      (phi3 (k.c3 - k.c2)) (phi3 ((k.c2 - k.c1) + (k.c3 - k.c2))) k.c1 k.y2 k.c3 (by norm_num) hab hQ
+    exact ⟨w1, w2, w3, v1, v0, (splineSystemPhi_iff h0 h12 h23 _ _ _ _ _).mpr S⟩
+  · intro w1 w2 w3 v1 v0 w1' w2' w3' v1' v0' S S'
+    exact Poly3Sys.unique (by norm_num) (ne_of_gt hb) hab hQ
+      ((splineSystemPhi_iff h0 h12 h23 _ _ _ _ _).mp S) ((splineSystemPhi_iff h0 h12 h23 _ _ _ _ _).mp S')
+
+/-- **C08_cubic_warp_model**: *every* solution of the order-3 system for the knots of
+`warp_1d_grid`, evaluated at the frame centres, is the grid of the executable model
+(`warpGrid3`, closed-form coefficients `cubicCoeffs`) — the order-3 analogue of
+`C08_linear_warp_spline`.  The harness compares `warp_1d_grid(…, 3)` with `warpGrid3` on the
+well-conditioned cases (knot at least a frame from both ends, `T ≤ 40`). -/
+theorem C08_cubic_warp_model {eps : Rat} {T len : Nat} (hT : 1 ≤ T) (hl : 1 ≤ len) (he : 0 < eps)
+    (src flow : Rat) {w1 w2 w3 v1 v0 : Rat}
+    (S : SplineSystemPhi phi3 (warpKnots eps 0 T len src flow) w1 w2 w3 v1 v0) :
+    (List.range T).map (fun (j : Nat) =>
+        splineEvalPhi phi3 (warpKnots eps 0 T len src flow).c1 (warpKnots eps 0 T len src flow).c2
+          (warpKnots eps 0 T len src flow).c3 w1 w2 w3 v1 v0 (norm T (j : Rat)))
+      = warpGrid3 eps T len src flow := by
+  have ho := (warpKnots_facts hT hl (le_of_lt he) (le_refl 0) (by norm_num) src flow).ordered he
+  have M := cubicCoeffs_solves ho.h12 ho.h23
+  obtain ⟨e1, e2, e3, e4, e5⟩ :=
+    (C08_cubic_warp_exists_unique hT hl he (le_refl 0) (by norm_num) src flow).2 _ _ _ _ _ _ _ _ _ _ S M
+  unfold warpGrid3
+  apply List.map_congr_left
+  intro j _
+  rw [cubicEval_eq, e1, e2, e3, e4, e5]
+
+/-- **C08_thinplate_warp_exists_unique** (interpolation order 2, `φ(r) = r² log max(r, eps)`,
+over the reals because of the logarithm): for the knots of `warp_1d_grid` the system has exactly
+one real solution — the second divided difference of the kernel is
+`a b (a+b) ((a+b) log(a+b) − a log a − b log b) > 0` because both gaps are at least `eps`
+(where the clamp inside `_phi` is inactive).  Same reading as for order 3: a well-defined finite
+function through the three knots in exact arithmetic; float conditioning is not covered. -/
+theorem C08_thinplate_warp_exists_unique {eps mu : Rat} {T len : Nat} (hT : 1 ≤ T) (hl : 1 ≤ len)
+    (he : 0 < eps) (hm0 : 0 ≤ mu) (hm1 : mu ≤ 1) (src flow : Rat) :
+    let k := warpKnots eps mu T len src flow
+    (∃ w1 w2 w3 v1 v0 : ℝ, SplineSystemR (phi2 (eps : ℝ)) k.c1 k.c2 k.c3 k.y2 w1 w2 w3 v1 v0) ∧
+    (∀ w1 w2 w3 v1 v0 w1' w2' w3' v1' v0' : ℝ,
+      SplineSystemR (phi2 (eps : ℝ)) k.c1 k.c2 k.c3 k.y2 w1 w2 w3 v1 v0 →
+      SplineSystemR (phi2 (eps : ℝ)) k.c1 k.c2 k.c3 k.y2 w1' w2' w3' v1' v0' →
+      w1 = w1' ∧ w2 = w2' ∧ w3 = w3' ∧ v1 = v1' ∧ v0 = v0') := by
+  intro k
+  have hf := warpKnots_facts hT hl (le_of_lt he) hm0 hm1 src flow
+  have heR : (0 : ℝ) < (eps : ℝ) := by exact_mod_cast he
+  have ha : (eps : ℝ) ≤ (k.c2 : ℝ) - (k.c1 : ℝ) := by
+    have := hf.c2_lo
+    have h' : ((k.c1 + eps : Rat) : ℝ) ≤ ((k.c2 : Rat) : ℝ) := by exact_mod_cast this
+    push_cast at h'; linarith
+  have hb : (eps : ℝ) ≤ (k.c3 : ℝ) - (k.c2 : ℝ) := by
+    have := hf.c2_hi
+    have h' : ((k.c2 : Rat) : ℝ) ≤ ((k.c3 - eps : Rat) : ℝ) := by exact_mod_cast this
+    push_cast at h'; linarith
+  have h12 : (k.c1 : ℝ) < (k.c2 : ℝ) := by linarith
+  have h23 : (k.c2 : ℝ) < (k.c3 : ℝ) := by linarith
+  have h0 := phi2_zero (eps : ℝ)
+  have hQ := poly3Q_phi2 heR ha hb
+  have hab : ((k.c2 : ℝ) - (k.c1 : ℝ)) + ((k.c3 : ℝ) - (k.c2 : ℝ)) ≠ 0 := by intro h; linarith
+  constructor
+  · obtain ⟨w1, w2, w3, v1, v0, S⟩ := Poly3Sys.exists (k.c1 : ℝ) ((k.c2 : ℝ) - (k.c1 : ℝ))
+      ((k.c3 : ℝ) - (k.c2 : ℝ)) (phi2 (eps : ℝ) ((k.c2 : ℝ) - (k.c1 : ℝ)))
+      (phi2 (eps : ℝ) ((k.c3 : ℝ) - (k.c2 : ℝ)))
+      (phi2 (eps : ℝ) (((k.c2 : ℝ) - (k.c1 : ℝ)) + ((k.c3 : ℝ) - (k.c2 : ℝ)))) (k.c1 : ℝ) (k.y2 : ℝ) (k.c3 : ℝ)
+      (by norm_num) hab hQ
+    exact ⟨w1, w2, w3, v1, v0, (splineSystemR_iff h0 h12 h23 _ _ _ _ _).mpr S⟩
+  · intro w1 w2 w3 v1 v0 w1' w2' w3' v1' v0' S S'
+    exact Poly3Sys.unique (by norm_num) (by intro h; linarith) hab hQ
+      ((splineSystemR_iff h0 h12 h23 _ _ _ _ _).mp S) ((splineSystemR_iff h0 h12 h23 _ _ _ _ _).mp S')
+
+/-- The hypotheses of both are those of `C08_linear_warp_spline` (satisfiable: float32, `T = len = 10`). -/
+example : ∃ w1 w2 w3 v1 v0, SplineSystemPhi phi3 (warpKnots (1/8388608) 0 10 10 5 2) w1 w2 w3 v1 v0 :=
+  (C08_cubic_warp_exists_unique (by norm_num) (by norm_num) (by norm_num) (le_refl _) (by norm_num) 5 2).1
 
 /-! ## range -/
 
